@@ -70,11 +70,35 @@ func init() {
 					R.bad("C12.i", kRPCFS+":split", "the difference is split into squares", "no Split call", P.Pos(fn.Pos()))
 					return
 				}
-				q := &MustPass{P: P, Match: func(a Atom) bool {
-					g, ok := P.guardOf(a)
-					return ok && g.Kind == "big" && siteOf(g.SubjV) == siteOf(split.Call.Args[0]) && g.Rel == ">=" && g.Bound.equal(tconst(0))
-				}}
-				r := q.MustReach(fn, split)
+				nonNeg := func(v ssa.Value) func(Atom) bool {
+					return func(a Atom) bool {
+						g, ok := P.guardOf(a)
+						return ok && g.Kind == "big" && siteOf(g.SubjV) == siteOf(v) && g.Rel == ">=" && g.Bound.equal(tconst(0))
+					}
+				}
+				r := (&MustPass{P: P, Match: nonNeg(split.Call.Args[0])}).MustReach(fn, split)
+				if ex, isEx := split.Call.Args[0].(*ssa.Extract); isEx && !r.Holds {
+					// the difference comes from a helper: its error was tested before the split, and every successful
+					// return of the helper hands out a value it tested >= 0
+					if hc, isCall := ex.Tuple.(*ssa.Call); isCall {
+						if h := staticCallee(hc); h != nil && h.Blocks != nil && inModuleFn(h) {
+							if hacc, okAcc := accOfFn(h, Nil); okAcc {
+								r = (&MustPass{P: P, NoInterproc: true, Match: func(a Atom) bool {
+									c2, idx := callAndResult(a.V)
+									return c2 == hc && idx == hacc.Result && a.Want == Nil
+								}}).MustReach(fn, split)
+								bindCall(hc, h, func() {
+									for _, ret := range returnsOf(h) {
+										if !r.Holds || !isNilConst(ret.Results[hacc.Result]) {
+											continue
+										}
+										r = (&MustPass{P: P, Match: nonNeg(ret.Results[ex.Index])}).MustReach(h, ret)
+									}
+								})
+							}
+						}
+					}
+				}
 				R.decide("C12.i", kRPCFS+":nonnegative", "the value handed to the splitter was tested >= 0 (else ErrFalseStatement)", r.Holds, r.Path, P.Pos(split.Pos()))
 				// the term of the difference: both signs
 				be := P.bigEval(fn)
@@ -85,16 +109,19 @@ func init() {
 				}
 				// flow-sensitive join of the two sign branches gives Top; check the unsigned difference before negation
 				okDiff := false
-				allInstrs(fn, func(i ssa.Instruction) {
-					if c, ok := i.(*ssa.Call); ok && bigMethod(c) == "Sub" {
-						if t, ok := be.Ret[c]; ok {
-							want := tsub(tmul(tsym("arg#2"), tsym("call:big.NewInt("+rpS+".a)")), tsym(rpS+".k"))
-							if t.equal(want) {
-								okDiff = true
+				deepVisit(P, fn, 1, func(g *ssa.Function) {
+					be := P.bigEval(g)
+					allInstrs(g, func(i ssa.Instruction) {
+						if c, ok := i.(*ssa.Call); ok && bigMethod(c) == "Sub" {
+							if t, ok := be.Ret[c]; ok {
+								want := tsub(tmul(tsym("arg#2"), tsym("call:big.NewInt("+rpS+".a)")), tsym(rpS+".k"))
+								if t.equal(want) {
+									okDiff = true
+								}
+								got += " | " + t.String()
 							}
-							got += " | " + t.String()
 						}
-					}
+					})
 				})
 				R.decide("C12.i", kRPCFS+":difference", "the difference is a*m - k (negated when sign = -1)", okDiff, "got "+got, P.Pos(fn.Pos()))
 			}},
